@@ -4,9 +4,19 @@ _IDX = "pkg/apk/apk/index.go:"
 CHECK = {
     "title": "Only repository indexes signed by a trusted key are used",
     "modules": ["Apko.Proofs.C04"],
-    "suites": [("indexsig", 400, 12000)],
+    "suites": [("indexsig", 1500, 30000)],
     "fact_prefixes": ["index.go"],
-    "hashes": {},
+    "hashes": {
+        _IDX + "parseRepositoryIndex": "55117eedaf37d53c",
+        _IDX + "shouldCheckSignatureForIndex": "68c1a4dfa70445e4",
+        _IDX + "IndexURL": "8cabc46347cefd35",
+        _IDX + "GetRepositoryIndexes": "41d6e63f37fabb6d",
+        _IDX + "indexCache.get": "29afaf98b3854d3d",
+        "pkg/apk/apk/apkindex.go:IndexFromArchive": "fdebdedf8366f281",
+        "pkg/apk/apk/apkindex.go:ParsePackageIndex": "cca2e2047a70ebf1",
+        "pkg/apk/apk/repo.go:APK.GetRepositoryIndexes": "bee61c0ccdab380a",
+        "pkg/apk/signature/rsa.go:RSAVerifyDigest": "3b2126fcb4fa7dcc",
+    },
     "budget_quick": 100,
     "level": "proof",
     "design_ref": "DESIGN.md §4 C04",
